@@ -20,6 +20,10 @@ def run(ctx):
         if i % 4 == 3:   # an idle (constant) feature over the first reference windows that wakes up later
             xs = D.idle_feature_stream(rng, len(xs), d, W)
             p["online_scaling"] = i % 8 == 3 or p["online_scaling"]
+        if i % 7 == 5:   # whole-number rows first (integer-typed containers), fractional rows later; raw projection
+            xs = D.int_then_float_stream(rng, len(xs), d, W)
+            p["online_scaling"] = False
+            p["feed"] = {"seed": rng.randrange(10 ** 6), "kinds": [rng.choice(["intarray", "list2d", "list1d", "tuple"])]}
         if i % 9 == 0:   # a stream whose test window equals its reference window
             xs = xs[:W] + xs[:W] + xs[W:]
         resets = sorted(rng.sample(range(2, len(xs)), rng.randint(0, 1)))
